@@ -251,7 +251,7 @@ fn explicit_value(op: &str) -> Variant {
 
 /// The four migration paths for one DOM (C15): both writers with the database, both readers on a file /
 /// document that still carries the legacy name (written without a database), chunk / element order both ways.
-fn mig_paths(dom: &WeakDom, roots: &[Ref], nodb: &ReflectionDatabase) -> Value {
+fn mig_paths(dom: &WeakDom, roots: &[Ref], nodb: &ReflectionDatabase, with_rbin: bool) -> Value {
     let mut paths = json!({});
     paths["wbin"] = bin_trip(dom, roots);
     paths["wxml"] = xml_trip(dom, roots, "IgnoreUnknown", "IgnoreUnknown");
@@ -259,7 +259,11 @@ fn mig_paths(dom: &WeakDom, roots: &[Ref], nodb: &ReflectionDatabase) -> Value {
     let w = std::panic::catch_unwind(std::panic::AssertUnwindSafe(|| {
         rbx_binary::Serializer::new().reflection_database(nodb).compression_type(CompressionType::None).serialize(&mut buf, dom, roots)
     }));
-    if let Ok(Ok(())) = w {
+    if !with_rbin {
+        // a binary file stores one column entry per instance of the class: when only SOME instances carry the new
+        // property, a file written without the database gives the others an entry too (the type's neutral value), so
+        // the file itself says they carry both and "legacy only" cannot be put before the binary reader
+    } else if let Ok(Ok(())) = w {
         paths["rbin"] = after_of(read_bin(&buf));
         paths["rbin_rev"] = after_of(read_bin(&reverse_prop_chunks(&buf)));
     } else {
@@ -319,7 +323,7 @@ pub fn run_migrations(stride: usize, out: &mut dyn Write) {
                     let mut ev = json!({"ep": format!("mig:{}.{}:{}:{}", cname, pname, vi, with_explicit as u8), "op": "mig_case",
                                         "class": inst_class, "legacy": pname, "target": mig.new_property_name, "migop": op,
                                         "explicit": with_explicit as u8, "before": pforest(&dom, &roots), "paths": {}});
-                    ev["paths"] = mig_paths(&dom, &roots, &nodb);
+                    ev["paths"] = mig_paths(&dom, &roots, &nodb, true);
                     serde_json::to_writer(&mut *out, &ev).unwrap();
                     out.write_all(b"\n").unwrap();
                 }
@@ -346,13 +350,39 @@ pub fn run_migrations(stride: usize, out: &mut dyn Write) {
                     let b = dom.insert(root, InstanceBuilder::new(inst_class).with_name("B").with_property(pname, values[(j + values.len() / 2 + 1) % values.len()].clone()));
                     let c = dom.insert(root, InstanceBuilder::new(inst_class).with_name("C"));
                     let roots = [a, b, c];
-                    let paths = mig_paths(&dom, &roots, &nodb);
+                    let paths = mig_paths(&dom, &roots, &nodb, true);
                     for focus in 1..=2 {
                         let ev = json!({"ep": format!("mig:{}.{}:sib{}:{}", cname, pname, j, focus), "op": "mig_case", "focus": focus,
                                         "class": inst_class, "legacy": pname, "target": mig.new_property_name, "migop": op,
                                         "explicit": 0, "before": pforest(&dom, &roots), "paths": paths.clone()});
                         serde_json::to_writer(&mut *out, &ev).unwrap();
                         out.write_all(b"\n").unwrap();
+                    }
+                    // mixed siblings: one instance carries the legacy property AND an explicit new value, the other the
+                    // legacy property alone, in both orders - what one instance carries must not decide what happens
+                    // to the other's column entry
+                    for both_first in [true, false] {
+                        let mut dom = WeakDom::new(InstanceBuilder::new("DataModel"));
+                        let root = dom.root_ref();
+                        let v1 = values[j].clone();
+                        let v2 = values[(j + values.len() / 2 + 1) % values.len()].clone();
+                        let with_both = |n: &str, v: Variant| InstanceBuilder::new(inst_class).with_name(n).with_property(pname, v).with_property(mig.new_property_name.as_str(), explicit_value(&op));
+                        let legacy_only = |n: &str, v: Variant| InstanceBuilder::new(inst_class).with_name(n).with_property(pname, v);
+                        let (a, b) = if both_first {
+                            (dom.insert(root, with_both("A", v1)), dom.insert(root, legacy_only("B", v2)))
+                        } else {
+                            (dom.insert(root, legacy_only("A", v1)), dom.insert(root, with_both("B", v2)))
+                        };
+                        let roots = [a, b];
+                        let paths = mig_paths(&dom, &roots, &nodb, false);
+                        for focus in 1..=2 {
+                            let explicit = ((focus == 1) == both_first) as u8;
+                            let ev = json!({"ep": format!("mig:{}.{}:mix{}:{}:{}", cname, pname, j, both_first as u8, focus), "op": "mig_case", "focus": focus,
+                                            "class": inst_class, "legacy": pname, "target": mig.new_property_name, "migop": op,
+                                            "explicit": explicit, "before": pforest(&dom, &roots), "paths": paths.clone()});
+                            serde_json::to_writer(&mut *out, &ev).unwrap();
+                            out.write_all(b"\n").unwrap();
+                        }
                     }
                 }
             }
